@@ -268,7 +268,7 @@ fn junk_bytes(j: &Junk) -> Vec<u8> {
     }
 }
 
-fn nested(kind: u8, depth: usize, leaf: &Value) -> Value {
+pub fn nested(kind: u8, depth: usize, leaf: &Value) -> Value {
     let mut v = leaf.clone();
     for i in 0..depth {
         v = match kind % 4 {
